@@ -190,6 +190,8 @@ func init() { commands["csem"] = cmdCSem }
 func cKnobs(c *ctx, dialect string, i int, o *wgenOpts, knob *string) {
 	o.noSDot, o.noAbsI, o.noDynPtr, o.noFlbU = true, true, true, true
 	o.safeDiv = dialect == "glsl"
+	o.noValIdx = dialect == "msl"
+	o.contCall = c.chance(0.15)
 	ks := cRisky[dialect]
 	if len(ks) > 0 && i%5 == 4 {
 		*knob = ks[(i/5)%len(ks)]
@@ -206,14 +208,24 @@ func cKnobs(c *ctx, dialect string, i int, o *wgenOpts, knob *string) {
 			o.safeDiv = false
 		case "rawShift":
 			o.rawShift = true
+		case "privInit":
+			o.privInit = true
+		case "vecInit":
+			o.privInit, o.vecInit = true, true
+		case "constInit":
+			o.constInit = true
+		case "valIdx":
+			o.noValIdx = false
+		case "negInit":
+			o.privInit, o.vecInit, o.negInit = true, true, true
 		}
 	}
 }
 
 var cRisky = map[string][]string{
-	"hlsl": {"sdot", "absI"},
-	"msl":  {"sdot", "dynPtr", "flbU"},
-	"glsl": {"rawDiv", "rawShift"},
+	"hlsl": {"sdot", "absI", "privInit", "vecInit", "constInit"},
+	"msl":  {"sdot", "dynPtr", "flbU", "privInit", "vecInit", "constInit", "negInit", "valIdx"},
+	"glsl": {"rawDiv", "rawShift", "privInit", "vecInit", "constInit", "negInit"},
 }
 
 // emitCFixed re-emits with the options encoded in a tag produced by emitC.
@@ -324,6 +336,10 @@ func cmdCProbeSem(c *ctx) {
 			c.probeCases(dialect, m, fmt.Sprintf("%snan f32 x%d", f, n), f2iNaNBits, f)
 		}
 	}
+	for _, k := range []string{"i32", "u32"} {
+		m := probeModule(k, 3, "", false, false, "dot")
+		c.probeCases(dialect, m, fmt.Sprintf("dot %s x3", k), bnd, "dot")
+	}
 	for _, f := range []string{"neg", "bnot", "abs", "min", "max", "firstLeadingBit", "firstTrailingBit", "countOneBits", "reverseBits", "countLeadingZeros", "countTrailingZeros"} {
 		for _, k := range []string{"i32", "u32"} {
 			if f == "neg" && k == "u32" {
@@ -396,6 +412,9 @@ func probeModule(kind string, n int, op string, rhsU, resBool bool, fn string) *
 		r = &wexpr{k: "un", ty: rt, op: "-", args: []*wexpr{a}}
 	case fn == "bnot":
 		r = &wexpr{k: "un", ty: rt, op: "~", args: []*wexpr{a}}
+	case fn == "dot":
+		rt = kt
+		r = &wexpr{k: "call", ty: kt, name: "dot", args: []*wexpr{a, b}}
 	case fn == "min" || fn == "max":
 		r = &wexpr{k: "call", ty: rt, name: fn, args: []*wexpr{a, b}}
 	case fn != "":
@@ -411,9 +430,13 @@ func probeModule(kind string, n int, op string, rhsU, resBool bool, fn string) *
 		&wglobal{name: "inp", space: "storage_r", ty: tU32, rt: true, binding: 0},
 		&wglobal{name: "outp", space: "storage_rw", ty: tU32, rt: true, binding: 1})
 	main := &wfunc{name: "main"}
-	for i := 0; i < n; i++ {
+	nOut := n
+	if rt.k != "vec" {
+		nOut = 1
+	}
+	for i := 0; i < nOut; i++ {
 		var comp *wexpr
-		if n == 1 {
+		if nOut == 1 {
 			comp = r
 		} else {
 			comp = &wexpr{k: "idx", ty: rt.elem, args: []*wexpr{r, {k: "lit", ty: tU32, bits: uint32(i), konst: true, small: true}}}
